@@ -208,6 +208,11 @@ func init() {
 		})
 		return nil
 	}
+	// vClockMax bounds every reading of the modelled clock (nanoseconds).
+	harnessAPI["vClockMax"] = func(fr *frame, fn *ssa.Function, args []Value) Value {
+		fr.p.nowMax = termOf(args[0])
+		return nil
+	}
 	harnessAPI["vObserve"] = func(fr *frame, fn *ssa.Function, args []Value) Value {
 		s := args[0].(StrV).String()
 		if len(args) > 1 {
